@@ -176,10 +176,17 @@ def _expected_trace(cj):
 
 
 def _targets(n):
-    st = dmref.stab_states(n)
+    """explicit pure stabilizer targets: all for n<=2, every 27th of the 1080 for n=3, tensor products of 3- and 1-qubit /
+    2- and 2-qubit stabilizer states for n=4 (the full matrices are compared as well, which covers every target)"""
     if n <= 2:
-        return [v for v, _ in st]
-    return [st[k][0] for k in range(0, len(st), 27)]
+        return [v for v, _ in dmref.stab_states(n)]
+    if n == 3:
+        st = dmref.stab_states(3)
+        return [st[k][0] for k in range(0, len(st), 27)]
+    s1, s2, s3 = dmref.stab_states(1), dmref.stab_states(2), dmref.stab_states(3)
+    out = [np.kron(s3[k][0], s1[k % 6][0]) for k in range(0, 1080, 54)]
+    out += [np.kron(s2[i][0], s2[(7 * i + 3) % 60][0]) for i in range(0, 60, 3)]
+    return out
 
 
 # ------------------------------------------------------------------ channel level: <Model>.apply
@@ -369,7 +376,9 @@ def _same_as_noiseless(cj, circuit_factory, noise_on, label):
     d1 = _dm_of(_compile(circuit_factory(), "dm", noise_on))
     if isinstance(d1, str):
         return d1
-    if not np.array_equal(d1, d0):
+    # "exactly" up to floating point: a zero-strength channel still multiplies by 1.0 / adds 0.0 * (...) terms, which can
+    # leave denormal-size residues (8.6e-50 observed); the tableau and the branch weight below are compared exactly
+    if d1.shape != d0.shape or not np.allclose(d1, d0, atol=1e-12, rtol=0):
         return f"{label}: density matrix differs from the noiseless one (max dev {np.max(np.abs(d1 - d0)):.3e})"
     if want is not None and not np.allclose(d1, want, atol=1e-12, rtol=0):
         return f"{label}: density matrix differs from the textbook noiseless state"
